@@ -167,6 +167,52 @@ theorem runM_whileFuel {V : Type} (Inv : Locals V → σ → Prop) (c : σ → B
       refine ⟨loc2, ?_, by simpa using hinv2⟩
       simp [h1, h2]
 
+
+/-- `runM_whileFuel` up to an abstraction `abs` of the state (the body may leave garbage the abstraction does not see) -/
+theorem runM_whileAbs {V A : Type} (Inv : Locals V → σ → Prop) (abs : σ → A) (c : A → Bool) (step : A → A)
+    (cond : Locals V → SM σ Bool) (body : Locals V → SM σ (Ctl V × Locals V))
+    (hcond : ∀ loc st, Inv loc st → runM (cond loc) st = (.ok (c (abs st)), st))
+    (hbody : ∀ loc st, Inv loc st → c (abs st) = true →
+      ∃ loc' st', runM (body loc) st = (.ok (.next, loc'), st') ∧ Inv loc' st' ∧ abs st' = step (abs st)) :
+    ∀ (fuel : Nat) (loc : Locals V) (st : σ), Inv loc st →
+      ∃ loc' st', runM (whileFuel cond body fuel loc) st = (.ok (.next, loc'), st') ∧ Inv loc' st' ∧
+        abs st' = iterWhile c step fuel (abs st)
+  | 0, loc, st, hinv => ⟨loc, st, rfl, hinv, rfl⟩
+  | fuel + 1, loc, st, hinv => by
+    simp only [whileFuel, runM_bind, hcond loc st hinv, iterWhile]
+    cases hc : c (abs st) with
+    | false => exact ⟨loc, st, by simp, hinv, by simp⟩
+    | true =>
+      obtain ⟨loc1, st1, h1, hinv1, ha1⟩ := hbody loc st hinv hc
+      obtain ⟨loc2, st2, h2, hinv2, ha2⟩ := runM_whileAbs Inv abs c step cond body hcond hbody fuel loc1 st1 hinv1
+      refine ⟨loc2, st2, ?_, hinv2, by simpa [ha1] using ha2⟩
+      simp [h1, h2]
+
+/-- the states a fuelled `while` can end in when one pass of its body relates the state before to the state after by
+`R` (a relation: what the pass does may depend on things the statement does not fix, a wall clock for instance) -/
+inductive Reach (c : σ → Bool) (R : σ → σ → Prop) : Nat → σ → σ → Prop
+  | fuel (s : σ) : Reach c R 0 s s
+  | done (n : Nat) (s : σ) : c s = false → Reach c R (n + 1) s s
+  | step (n : Nat) (s s1 s2 : σ) : c s = true → R s s1 → Reach c R n s1 s2 → Reach c R (n + 1) s s2
+
+theorem runM_whileRel {V : Type} (Inv : Locals V → σ → Prop) (c : σ → Bool) (R : σ → σ → Prop)
+    (cond : Locals V → SM σ Bool) (body : Locals V → SM σ (Ctl V × Locals V))
+    (hcond : ∀ loc st, Inv loc st → runM (cond loc) st = (.ok (c st), st))
+    (hbody : ∀ loc st, Inv loc st → c st = true →
+      ∃ loc' st', runM (body loc) st = (.ok (.next, loc'), st') ∧ Inv loc' st' ∧ R st st') :
+    ∀ (fuel : Nat) (loc : Locals V) (st : σ), Inv loc st →
+      ∃ loc' st', runM (whileFuel cond body fuel loc) st = (.ok (.next, loc'), st') ∧ Inv loc' st' ∧ Reach c R fuel st st'
+  | 0, loc, st, hinv => ⟨loc, st, rfl, hinv, .fuel st⟩
+  | fuel + 1, loc, st, hinv => by
+    simp only [whileFuel, runM_bind, hcond loc st hinv]
+    cases hc : c st with
+    | false => exact ⟨loc, st, by simp, hinv, .done fuel st hc⟩
+    | true =>
+      obtain ⟨loc1, st1, h1, hinv1, hr1⟩ := hbody loc st hinv hc
+      obtain ⟨loc2, st2, h2, hinv2, hr2⟩ := runM_whileRel Inv c R cond body hcond hbody fuel loc1 st1 hinv1
+      refine ⟨loc2, st2, ?_, hinv2, .step fuel st st1 st2 hc hr1 hr2⟩
+      simp [h1, h2]
+
 /-- final state of a run that did not raise -/
 def stOut {α : Type} (r : Except String α × σ) : Option σ := match r.1 with | .ok _ => some r.2 | .error _ => none
 
@@ -245,6 +291,54 @@ theorem stOut_func_single {V : Type} (w : World (SM σ) V) (params : List String
   | ok cl =>
     rcases cl with ⟨c, loc'⟩
     cases c <;> simp [stOut]
+
+
+/-! ### loops whose state at the moment of a raise matters (the caller catches the exception and carries on) -/
+
+/-- a fold that stops at the first element whose step raises (`true`), keeping the state that step left -/
+def foldK {V : Type} (step : V → σ → σ × Bool) : List V → σ → σ × Bool
+  | [], s => (s, false)
+  | x :: xs, s => match step x s with
+    | (s', true) => (s', true)
+    | (s', false) => foldK step xs s'
+
+/-- final state of a run and whether it raised -/
+def outK {α : Type} (r : Except String α × σ) : σ × Bool := (r.2, match r.1 with | .ok _ => false | .error _ => true)
+
+/-- a `for` loop, state kept at a raise, up to an abstraction `abs` of the state: if one pass of the body on `x` either
+falls through or raises, according to `(step x (abs st)).2`, leaving a state whose abstraction is `(step x (abs st)).1`,
+the loop is `foldK step` on the abstraction -/
+theorem absK_forLoop {V A : Type} (Inv : Locals V → σ → Prop) (abs : σ → A) (step : V → A → A × Bool)
+    (body : Locals V → V → SM σ (Ctl V × Locals V)) :
+    ∀ (xs : List V) (loc : Locals V) (st : σ),
+      (∀ loc x st, x ∈ xs → Inv loc st →
+        (∃ loc' st', runM (body loc x) st = (.ok (.next, loc'), st') ∧ abs st' = (step x (abs st)).1 ∧
+            (step x (abs st)).2 = false ∧ Inv loc' st') ∨
+        (∃ e st', runM (body loc x) st = (.error e, st') ∧ abs st' = (step x (abs st)).1 ∧ (step x (abs st)).2 = true)) →
+      Inv loc st →
+      (∃ loc' st', runM (forLoop body xs loc) st = (.ok (.next, loc'), st') ∧ (abs st', false) = foldK step xs (abs st)
+          ∧ Inv loc' st') ∨
+      (∃ e st', runM (forLoop body xs loc) st = (.error e, st') ∧ (abs st', true) = foldK step xs (abs st))
+  | [], loc, st, _, hinv => by
+    left
+    exact ⟨loc, st, by simp [forLoop], by simp [foldK], hinv⟩
+  | x :: xs, loc, st, hbody, hinv => by
+    simp only [forLoop, runM_bind, foldK]
+    rcases hbody loc x st List.mem_cons_self hinv with ⟨loc1, st1, h1, ha, h2, hinv1⟩ | ⟨e, st1, h1, ha, h2⟩
+    · rcases hs : step x (abs st) with ⟨a1, b⟩
+      rw [hs] at ha h2
+      simp only at ha h2
+      subst h2
+      subst ha
+      simp only [h1]
+      exact absK_forLoop Inv abs step body xs loc1 st1 (fun loc y st hy => hbody loc y st (List.mem_cons_of_mem _ hy)) hinv1
+    · rcases hs : step x (abs st) with ⟨a1, b⟩
+      rw [hs] at ha h2
+      simp only at ha h2
+      subst h2
+      subst ha
+      right
+      exact ⟨e, st1, by simp [h1], rfl⟩
 
 /-! ### the same for functions without object state, evaluated in `Except String` -/
 
